@@ -95,16 +95,34 @@ func runC16(c *Ctx) {
 				}
 			})
 		}
-		// close(ready) deferred in dial
-		okDefer := false
-		instrs(dial, func(in ssa.Instruction) {
-			if d, ok := in.(*ssa.Defer); ok {
-				if b, ok := d.Call.Value.(*ssa.Builtin); ok && b.Name() == "close" && fieldOf(d.Call.Args[0]) == fReady {
-					okDefer = in.Block() == dial.Blocks[0]
+		// close(ready) runs exactly once on every returning path of dial, after every write of c.c / c.err
+		// (deferred at entry, or written out before each return)
+		{
+			e := &PPA{Watch: func(ev *Ev) bool {
+				return ev.Label == "builtin:close" || ev.Label == "store:connection.connection.c" || ev.Label == "store:connection.connection.err"
+			}}
+			e.Run(dial)
+			c.Paths += len(e.Paths)
+			okClose, n := true, 0
+			why := ""
+			for i := range e.Paths {
+				p := &e.Paths[i]
+				if p.End != "return" {
+					continue
+				}
+				n++
+				isCl := func(ev *Ev) bool {
+					return ev.Label == "builtin:close" && len(ev.Args) > 0 && (loadOfField(ev.Args[0].V, fReady) || fieldOf(ev.In.(ssa.CallInstruction).Common().Args[0]) == fReady)
+				}
+				k := p.Count(isCl)
+				ci := p.Index(0, isCl)
+				if k != 1 || ci != len(p.Trace)-1 {
+					okClose = false
+					why = fmt.Sprintf("%d close(ready) on the path, at position %d of %d; path: %s", k, ci, len(p.Trace), p.String())
 				}
 			}
-		})
-		c.Check(okDefer, "C16.ready-hb", fnName(dial), "defer close(c.ready) at entry", P.Pos(dial.Pos()), "ready is signalled after every write of c.c / c.err")
+			c.Check(okClose && n > 0, "C16.ready-hb", fnName(dial), "defer close(c.ready) at entry", P.Pos(dial.Pos()), "ready is signalled exactly once, after every write of c.c / c.err, on every return of dial; "+why)
+		}
 		// reads in Connection after ready
 		e := &PPA{TraceLoads: true, Watch: func(ev *Ev) bool {
 			return isReadyRecv(ev) || (strings.HasPrefix(ev.Label, "load:") && (ev.Field == fC || ev.Field == fErr))
@@ -232,7 +250,7 @@ func runC16(c *Ctx) {
 			sc := p.Index(0, lbl("store:connection.connection.c"))
 			se := p.Index(0, lbl("store:connection.connection.err"))
 			cl := p.Index(0, lbl("builtin:close"))
-			last := cl == len(p.Trace)-1 && cl >= 0 && p.Trace[cl].Deferred
+			last := cl == len(p.Trace)-1 && cl >= 0 // deferred, or written out before each return: it runs last
 			if ri >= 0 {
 				nFail++
 				li := p.Index(0, lock)
@@ -362,6 +380,25 @@ func runC16(c *Ctx) {
 				}
 			}
 		}
+		// ... or the library form of the same thing: done returns sync.OnceFunc(body) - every call of OnceFunc makes
+		// its own once state, and the function it returns runs body at most once
+		if !okOuter {
+			nRet, nOnceFunc := 0, 0
+			instrs(done, func(in ssa.Instruction) {
+				r, ok := in.(*ssa.Return)
+				if !ok || len(r.Results) != 1 {
+					return
+				}
+				nRet++
+				if call, ok := r.Results[0].(*ssa.Call); ok && calleeName(&call.Call) == "sync.OnceFunc" && len(call.Call.Args) == 1 {
+					if b := target(call.Call.Args[0]); b != nil {
+						body = b
+						nOnceFunc++
+					}
+				}
+			})
+			okOuter = nRet > 0 && nRet == nOnceFunc && body != nil
+		}
 		c.Check(okOuter, "C16.release", fnName(done), "per-holder sync.Once guards the release body", P.Pos(done.Pos()), fmt.Sprintf("once allocated in done=%v, returned function is once.Do(body)=%v", onceAlloc != nil, okOuter))
 		releaseBodyFn = body
 		if body != nil {
@@ -466,7 +503,7 @@ func runC16(c *Ctx) {
 			at := &Atoms{
 				Class: func(e *PPA, st *State, rv RV) string {
 					rv = e.Resolve(st, rv)
-					if ex, ok := rv.V.(*ssa.Extract); ok && ex.Index == 2 {
+					if ex, ok := rv.V.(*ssa.Extract); ok && types.Identical(ex.Type(), types.Universe.Lookup("error").Type()) {
 						if call, ok := ex.Tuple.(*ssa.Call); ok && staticCallee(&call.Call) == cc {
 							return "CERR"
 						}
